@@ -148,6 +148,15 @@ Theorem C10_messages_keep_statics : forall c s now busy o,
 Proof. exact message_keeps_statics. Qed.
 Print Assumptions C10_messages_keep_statics.
 
+(** The same for the replacement address handed out on DECLINE (the declined
+    address itself is released, not block-listed: the code leaves it to the
+    probe). *)
+Theorem C10_decline_conflict_not_offered : forall c s now busy mac reqip ci s' mt yi,
+  Inv c s -> mac_len mac = 6 ->
+  decline c now busy mac reqip ci s = (s', ROk mt yi) -> yi <> 0 -> mem_ip yi busy = false.
+Proof. exact decline_not_busy. Qed.
+Print Assumptions C10_decline_conflict_not_offered.
+
 (** The allocateLease loop of the model (reserve, probe, block-list, again)
     is bounded by the free pool offsets plus the expired leases: no operation
     ever ends in the model's "out of fuel" answer, whatever the state, the
